@@ -160,6 +160,13 @@ def check(run, views, tier):
         F = crates["ipp"]
         nd = rr.r_dispatch(run, F)
         run.floor("R-DISPATCH", nd, 512 if rr.async_on(F) else 256, "tag bytes classified")
+        # the parser formats every decoded value in a trace!() call: a Display that can panic on well-formed text makes the
+        # parser refuse (abort on) a well-formed message. R-GUARD's text-slice clause over the parse cone (which contains Display).
+        from .. import guardrules as gr
+        from ..engine import Only
+        TP = load_json(os.path.join(VERIF, "tables", "panic.json"))
+        g = gr.call_graph(F)
+        gr.r_guard(Only(run, "|text slice of", "|panic|", "|unwrap|"), F, TP, gr.cone(g, gr.PARSE_ROOTS))
         n = cr.r_tagmap(run, F, T, check_registry=True)
         run.floor("R-TAGMAP", n, 19, "fixed-tag kinds")
         ne, ndec = cr.r_layout(run, F, T, external=True, casts=False)
